@@ -521,6 +521,7 @@ namespace bloch::runtime {
         m_executed = true;
         m_functions.clear();
         m_env.clear();
+        m_frameBases.clear();
         m_measurements.clear();
         m_trackedCounts.clear();
         m_echoBuffer.clear();
@@ -596,9 +597,9 @@ namespace bloch::runtime {
     }
 
     Value RuntimeEvaluator::lookup(const std::string& name) {
-        for (auto it = m_env.rbegin(); it != m_env.rend(); ++it) {
-            auto fit = it->find(name);
-            if (fit != it->end())
+        for (size_t i = m_env.size(); i-- > frameBase();) {
+            auto fit = m_env[i].find(name);
+            if (fit != m_env[i].end())
                 return fit->second.value;
         }
         std::shared_ptr<Object> thisObj = currentThisObject();
@@ -632,7 +633,8 @@ namespace bloch::runtime {
     }
 
     void RuntimeEvaluator::assign(const std::string& name, const Value& v) {
-        for (auto it = m_env.rbegin(); it != m_env.rend(); ++it) {
+        for (size_t i = m_env.size(); i-- > frameBase();) {
+            auto* it = &m_env[i];
             auto fit = it->find(name);
             if (fit != it->end()) {
                 Value newVal = v;
@@ -678,9 +680,9 @@ namespace bloch::runtime {
     }
 
     std::shared_ptr<Object> RuntimeEvaluator::currentThisObject() const {
-        for (auto it = m_env.rbegin(); it != m_env.rend(); ++it) {
-            auto found = it->find("this");
-            if (found != it->end() && found->second.value.objectValue)
+        for (size_t i = m_env.size(); i-- > frameBase();) {
+            auto found = m_env[i].find("this");
+            if (found != m_env[i].end() && found->second.value.objectValue)
                 return found->second.value.objectValue;
         }
         return {};
@@ -1368,7 +1370,7 @@ namespace bloch::runtime {
                 m_inStaticContext = false;
                 m_inConstructor = false;
                 m_inDestructor = true;
-                beginScope();
+                beginFrame();
                 Value thisVal;
                 thisVal.type = Value::Type::Object;
                 thisVal.objectValue = std::shared_ptr<Object>(obj, [](Object*) {});
@@ -1379,7 +1381,7 @@ namespace bloch::runtime {
                     if (m_hasReturn)
                         break;
                 }
-                endScope();
+                endFrame();
                 m_inDestructor = prevDtor;
                 m_inConstructor = prevCtor;
                 m_inStaticContext = prevStatic;
@@ -1433,7 +1435,7 @@ namespace bloch::runtime {
                 bool prevStatic = m_inStaticContext;
                 m_currentClassCtx = cls;
                 m_inStaticContext = false;
-                beginScope();
+                beginFrame();
                 Value thisVal;
                 thisVal.type = Value::Type::Object;
                 thisVal.objectValue = obj;
@@ -1441,7 +1443,7 @@ namespace bloch::runtime {
                 m_env.back()["this"] = {thisVal, false, true};
                 Value init = eval(field.initializer);
                 slot = init;
-                endScope();
+                endFrame();
                 m_currentClassCtx = prevClass;
                 m_inStaticContext = prevStatic;
             }
@@ -1471,7 +1473,7 @@ namespace bloch::runtime {
         m_inStaticContext = false;
         m_inConstructor = true;
         m_inDestructor = false;
-        beginScope();
+        beginFrame();
         Value thisVal;
         thisVal.type = Value::Type::Object;
         thisVal.objectValue = obj;
@@ -1586,7 +1588,7 @@ namespace bloch::runtime {
             std::cerr << "[ctor] " << cls->name << " done" << std::endl;
         }
 
-        endScope();
+        endFrame();
         m_currentClassCtx = prevClass;
         m_inStaticContext = prevStatic;
         m_inConstructor = prevCtor;
@@ -1607,7 +1609,7 @@ namespace bloch::runtime {
         m_inStaticContext = method->isStatic;
         m_inConstructor = false;
         m_inDestructor = false;
-        beginScope();
+        beginFrame();
         if (!method->isStatic) {
             Value thisVal;
             thisVal.type = Value::Type::Object;
@@ -1629,7 +1631,7 @@ namespace bloch::runtime {
             }
         }
         Value ret = m_returnValue;
-        endScope();
+        endFrame();
         m_hasReturn = prevReturn;
         m_currentClassCtx = prevClass;
         m_inStaticContext = prevStatic;
@@ -1640,7 +1642,7 @@ namespace bloch::runtime {
 
     Value RuntimeEvaluator::call(FunctionDeclaration* fn, const std::vector<Value>& args) {
         // Bind parameters, run the body until a return is hit, then unwind.
-        beginScope();
+        beginFrame();
         for (size_t i = 0; i < fn->params.size() && i < args.size(); ++i) {
             m_env.back()[fn->params[i]->name] = {args[i], false, true};
         }
@@ -1655,7 +1657,7 @@ namespace bloch::runtime {
             }
         }
         Value ret = m_returnValue;
-        endScope();
+        endFrame();
         m_hasReturn = prevReturn;
         return ret;
     }
@@ -2878,6 +2880,9 @@ namespace bloch::runtime {
                 } else if (target.type == Value::Type::ClassRef && target.classRef) {
                     staticCls = target.classRef;
                     method = findMethod(staticCls, member->member, &args);
+                    // super.m(...) runs the base version on the current object.
+                    if (viaSuper)
+                        receiver = currentThisObject();
                 } else if (target.type == Value::Type::ClassRef && !target.classRef &&
                            !target.className.empty()) {
                     // Static call on a generic template (e.g., List.of(x)) — attempt to
@@ -3245,6 +3250,17 @@ namespace bloch::runtime {
     }
 
     void RuntimeEvaluator::beginScope() { m_env.push_back({}); }
+
+    void RuntimeEvaluator::beginFrame() {
+        m_frameBases.push_back(m_env.size());
+        beginScope();
+    }
+
+    void RuntimeEvaluator::endFrame() {
+        endScope();
+        if (!m_frameBases.empty())
+            m_frameBases.pop_back();
+    }
 
     void RuntimeEvaluator::endScope() {
         if (m_env.empty())
